@@ -105,6 +105,63 @@ theorem current_operation_deferred : ∀ (fuel : Nat) (e : Engine) (x : Nat × N
         exact ⟨ih.1, by rw [ih.2, hk.2.2]⟩
       · exact ⟨by simpa using hx, rfl⟩
 
+/-- **At the first service at or after T**: one pass with the fuel `service` gives it leaves no record that is due —
+    every elapsed timeout of an operation not being written has been applied when the pass returns, and the clock
+    has not moved. -/
+theorem pass_leaves_nothing_due : ∀ (fuel : Nat) (e : Engine), e.timeouts.length < fuel →
+    ∀ id d, (Engine.processAckTimeouts fuel e).1.nextDueTimeout = some (id, d) →
+      d > (Engine.processAckTimeouts fuel e).1.now
+  | 0, e, h => by omega
+  | fuel + 1, e, h => by
+    intro id d
+    simp only [Engine.processAckTimeouts]
+    cases hn : e.nextDueTimeout with
+    | none => intro hh; simp only [] at hh; rw [hn] at hh; cases hh
+    | some nd =>
+      obtain ⟨id0, d0⟩ := nd
+      simp only []
+      split
+      · have hk := completeFailure_keeps_clock { e with timeouts := e.timeouts.erase (id0, d0) } id0 "AckTimeout"
+        have hmem := (nextDueTimeout_mem e (id0, d0) hn).1
+        have hlen : ({ e with timeouts := e.timeouts.erase (id0, d0) }.completeFailure id0 "AckTimeout").1.timeouts.length < fuel := by
+          rw [hk.1]
+          show (e.timeouts.erase (id0, d0)).length < fuel
+          rw [List.length_erase_of_mem hmem]
+          have : 0 < e.timeouts.length := List.length_pos_of_mem hmem
+          omega
+        exact pass_leaves_nothing_due fuel _ hlen id d
+      · rename_i hnot
+        intro hh
+        simp only [] at hh
+        rw [hn] at hh
+        cases hh
+        show d > e.now
+        omega
+
+/-- **The elapsed timeouts are applied before anything in the same service call can fail the connection**: a
+    connected engine runs the pass first, so a keep-alive timeout or a write failure found by this very call
+    does not carry the timed-out operations - as interrupted ones - over to the next connection. -/
+theorem service_applies_due_timeouts_first (e : Engine) (cap prefill : Nat) (hst : e.state = .connected) :
+    ((Engine.processAckTimeouts (e.timeouts.length + 1) e).2.isOk = false →
+        e.serviceCore cap prefill = Engine.processAckTimeouts (e.timeouts.length + 1) e) ∧
+    ((Engine.processAckTimeouts (e.timeouts.length + 1) e).2.isOk = true →
+        e.serviceCore cap prefill =
+          (let e0 := (Engine.processAckTimeouts (e.timeouts.length + 1) e).1
+           let (ea, ra) := e0.serviceKeepAlive
+           if !ra.isOk then (ea, ra)
+           else
+             let (eb, rb) := ea.serviceQueue true cap prefill
+             if !rb.isOk then (eb, rb)
+             else Engine.processAckTimeouts (eb.timeouts.length + 1) eb)) := by
+  unfold Engine.serviceCore
+  rw [hst]
+  simp only []
+  generalize Engine.processAckTimeouts (e.timeouts.length + 1) e = p0
+  obtain ⟨e0, r0⟩ := p0
+  constructor
+  · intro h; simp only [] at h ⊢; simp [h]
+  · intro h; simp only [] at h ⊢; simp [h]
+
 /-- the pass stops only when the earliest record of the other operations is not yet due -/
 theorem pass_continues_while_due (fuel : Nat) (e : Engine) (id d : Nat) (hn : e.nextDueTimeout = some (id, d)) (hdue : d ≤ e.now) :
     Engine.processAckTimeouts (fuel + 1) e =
